@@ -41,3 +41,39 @@ CHECKS["C11"] = {
         "query names are lower-cased wire names (as the router passes them)",
     ],
 }
+
+CHECKS["C02"] = {
+    "title": "The wire codec preserves message content",
+    "level": "exploration",
+    "level_text": "Generated messages over the full accepted domain are pushed through the proxy's decoder and encoder and the output is compared, octet-exact, with the model by four decoders (harness, the proxy itself, miekg/dns, x/net dnsmessage), for compression off and on, with length and pointer-validity checks and idempotence. Exploration by generated search with shrinking; no proof of absence.",
+    "level_note": "Trusts the harness wire codec (self-checked on every case against the model and, inside their domains, against miekg and x/net); the reserved Z header bit has no field in the codec and is not compared; incoming pointer chains limited to the 10 hops the decoder accepts.",
+    "technique": "property-based testing (rapid): round trip + differential against independent decoders",
+    "parts": [
+        {"engine": "P", "pkg": "internal/dnsmsg", "tests": [
+            {"run": "TestVfC02RoundTrip", "quick": 24000, "thorough": 1600000, "shards_quick": 8, "shards_thorough": 16,
+             "timeout_thorough": 3000},
+        ]},
+    ],
+    "assumptions": [
+        "messages are built by the harness encoder from a model; names <= 255 octets, labels 1..63 octets, at most one OPT",
+        "Z bit (reserved) not compared: the codec's header has no field for it",
+        "miekg/dns and x/net are only consulted on messages they reproduce from the input wire data (their own domain)",
+    ],
+}
+
+CHECKS["C09"] = {
+    "title": "Responses respect the transport size limit and truncate well-formedly",
+    "level": "exploration",
+    "level_text": "Generated responses x limits x compression are packed by the proxy's encoder and the output is parsed by a tolerant harness decoder (which sees lying counts and trailing bytes) and by miekg/dns: size bound, TC iff omission, counts = records present, question and OPT kept, kept answers/authorities an in-order subsequence, nothing omitted when the uncompressed form fits. Exploration with shrinking.",
+    "level_note": "OPT RDATA <= 200 octets so that header + question + OPT always fit in 512 octets; responses carry 0-1 question.",
+    "technique": "property-based testing (rapid): validity predicate over the output + independent decoders",
+    "parts": [
+        {"engine": "P", "pkg": "internal/dnsmsg", "tests": [
+            {"run": "TestVfC09PackLimit", "quick": 16000, "thorough": 800000, "shards_quick": 8, "shards_thorough": 16,
+             "timeout_thorough": 3000},
+        ]},
+    ],
+    "assumptions": [
+        "OPT RDATA <= 200 octets, at most one OPT, 0-1 question (what the proxy itself produces and relays)",
+    ],
+}
